@@ -198,8 +198,8 @@ func (c *Chain) Prepare(prop int, h int64, t time.Time, reqs *Requests) ([][]byt
 	}
 	// the proposer has a 1.2 s deadline for its two engine calls; on a heavily loaded machine the round trip
 	// over the unix socket can exceed it although nothing was injected: retry as CometBFT's next round would
-	for retry := 0; retry < 3 && len(pp.Txs) == 0 && !n.EL.HasFaults(); retry++ {
-		time.Sleep(100 * time.Millisecond)
+	for retry := 0; retry < 8 && len(pp.Txs) == 0 && !n.EL.HasFaults(); retry++ {
+		time.Sleep(time.Duration(100*(retry+1)) * time.Millisecond)
 		if pp, err = n.prepareWatched(req); err != nil {
 			return nil, err
 		}
@@ -247,6 +247,11 @@ func (c *Chain) Step(o StepOpts) (*Block, error) {
 	txs, err := c.Prepare(prop, h, t, o.Reqs)
 	if err != nil {
 		var st *ErrStuck
+		if errors.Is(err, ErrNoProposal) && !c.Nodes[prop].EL.HasFaults() {
+			// nine attempts over several seconds on an execution layer that answers every call properly: the honest proposer
+			// cannot build its block
+			return nil, &ErrRejected{Height: h, Node: prop, Err: err}
+		}
 		if errors.As(err, &st) {
 			// the honest proposer never finishes building its block: for the network that is a proposal nobody can accept
 			return nil, &ErrRejected{Height: h, Node: prop, Err: err}
